@@ -532,7 +532,40 @@ func runHist(s histScn) (line string) {
 
 // ---------------------------------------------------------------- generator
 
+// histHookRace: error-on-full mode, a buffer with ONE free place, one Enqueue parked between the admission checks and
+// the insert (hook "enqueue:counted") while another call takes the last place: the parked call must come back with
+// BufferFull at once when it is let go, and leave no trace.
+func histHookRace(r *rng) histScn {
+	s := histScn{gen: 1 + r.intn(2), buf: uint32(r.pick(1, 2, 3)), lim: r.chance(1, 2), maxcap: 100, cap0: 100000, eof: true,
+		flush: int64(r.pick(250, 1000)) * ms, capi: 100 * ms, audit: 0, mot: 1000 * ms, pau: 0}
+	s.ws = []histW{{maxBatch: uint32(r.pick(0, 2)), cbDur: 5 * ms}}
+	n := int(s.buf) + 2
+	for i := 0; i < n; i++ {
+		s.ops = append(s.ops, histOp{w: 0, cost: uint32(r.pick(1, 2, 5)), batchable: true})
+	}
+	t := int64(0)
+	if r.chance(2, 3) {
+		s.script = append(s.script, histAct{t: 0, act: "S"})
+	}
+	t = 10*ms + ms/2
+	for i := 0; i < int(s.buf)-1; i++ {
+		s.script = append(s.script, histAct{t: t, act: fmt.Sprintf("e%d", i)})
+		t += ms
+	}
+	parkedObj, filler := int(s.buf)-1, int(s.buf)
+	s.script = append(s.script, histAct{t: t, act: fmt.Sprintf("h%d", parkedObj)})
+	s.script = append(s.script, histAct{t: t + ms, act: fmt.Sprintf("e%d", filler)})
+	s.script = append(s.script, histAct{t: t + 2*ms, act: fmt.Sprintf("u%d", parkedObj)})
+	s.script = append(s.script, histAct{t: t + 3*ms, act: "s"})
+	s.script = append(s.script, histAct{t: t + 4*ms, act: fmt.Sprintf("e%d", filler+1)})
+	s.end = t + int64(r.pick(50, 600, 2500))*ms
+	return s
+}
+
 func histRandom(r *rng, profile string) histScn {
+	if r.chance(1, 14) {
+		return histHookRace(r)
+	}
 	s := histScn{gen: 1 + r.intn(2)}
 	s.buf = uint32(r.pick(1, 2, 3, 5, 50))
 	s.lim = r.chance(2, 3)
@@ -542,6 +575,9 @@ func histRandom(r *rng, profile string) histScn {
 	s.audit = int64(r.pick(150, 500, 1000, 0)) * ms
 	s.mot = int64(r.pick(100, 300, 1000, 0)) * ms
 	s.pau = int64(r.pick(0, 50, 120, 500)) * ms
+	if r.chance(1, 8) {
+		s.pau = int64(r.pick(750, 2500, 50250)) * (ms / 1000) // pause times that are not whole milliseconds
+	}
 	s.eof = r.chance(1, 4)
 	s.mcb = 0
 	if s.gen == 2 && r.chance(1, 2) {
